@@ -337,7 +337,15 @@ func (r *smRunner) monitor(f []string, pre, post *smSnap, err error, ret string)
 				if post.sb != ws || post.bb != wb {
 					finding := ""
 					if post.sb == post.dealer {
+						// D4: the late-activated third seat is a waiting player the button has NOT passed in
+						// this move (one it did pass must have been let in by nextDealer before the layout
+						// was chosen: that would be a different defect)
 						finding = "D4"
+						for i, ps := range pre.seats {
+							if ps.pid >= 0 && !ps.reserved && !ps.active && pre.dealer >= 0 && between(pre.dealer, i, post.dealer, max) {
+								finding = ""
+							}
+						}
 					}
 					r.o.ViolateF("C08", "ring_layout", desc+fmt.Sprintf(" expected sb=%d bb=%d", ws, wb), finding)
 				}
